@@ -366,6 +366,7 @@ func c07P6(r *core.R) {
 		}
 		// ---- Scan
 		c07ScanGuards(r, sc)
+		c07StickyError(r, sc)
 	}
 	if len(tables) == 2 {
 		var diff []string
